@@ -47,6 +47,8 @@ func init() {
 		{Src: "engines/pmm/machine.go.txt", Dst: "mm/pmm/zz_verif_machine_test.go", Pkg: "pmm"},
 		{Src: "engines/pmm/seq.go.txt", Dst: "mm/pmm/zz_verif_seq_test.go", Pkg: "pmm"},
 		{Src: "engines/shims/sync_shim.go.txt", Dst: "sync/zz_verif_shim.go", Pkg: "sync"},
+		{Src: "engines/pmm/boot.go.txt", Dst: "mm/pmm/zz_verif_boot_test.go", Pkg: "pmm"},
+		{Src: "engines/shims/vmm_machine_shim.go.txt", Dst: "mm/vmm/zz_verif_machine_shim.go", Pkg: "vmm"},
 	}
 	pmmAnchors := []string{"kernel/mm/pmm/bitmap_allocator.go", "kernel/mm/pmm/bootmem_allocator.go", "kernel/mm/pmm/pmm.go", "kernel/mm/page.go", "kernel/multiboot/multiboot.go", "kernel/sync/spinlock.go", "kernel/sync/spinlock_amd64.s"}
 	pmmReal := []string{"multiboot.VisitMemRegions decoding a generated multiboot2 information block", "pmm.BootMemAllocator", "pmm.BitmapAllocator (init, AllocFrame, FreeFrame, accounting)", "pmm.Init", "sync.Spinlock incl. assembly", "mm.AllocFrame dispatch", "kfmt.Printf into a captured sink"}
@@ -54,10 +56,13 @@ func init() {
 	addEngine(&engineSpec{Name: "pmm", PkgDir: "mm/pmm", Files: pmmFiles, Anchors: pmmAnchors, Real: pmmReal, Stub: pmmStub})
 	addProp(&propSpec{
 		ID: "C01", Engine: "pmm", Level: "exploration",
-		Subs: []subCheck{{Name: "C01", QuickRuns: 1000000000, QuickMs: 20000, ThoroughRuns: 1000000000, ThoroughMs: 480000}},
-		Rule: "one evaluation = one simulated boot (generated memory map of 1-8 regions with word-boundary frame counts, unaligned edges, sub-page regions, non-available types; kernel placement at start/middle/end/covering; 0-3 extra early allocations per mapping) followed by a seeded history of AllocFrame/FreeFrame calls by 1-8 callers including drain-to-exhaustion phases; every returned frame is checked against the reference sets. Non-trivial = Init succeeded, >=3 allocations and >=1 free; distinct = hash of (memory map, kernel placement, operation counts).",
+		Subs: []subCheck{
+			{Name: "C01", QuickRuns: 1000000000, QuickMs: 20000, ThoroughRuns: 1000000000, ThoroughMs: 480000},
+			{Name: "C01B", QuickRuns: 1000000000, QuickMs: 15000, ThoroughRuns: 1000000000, ThoroughMs: 360000, Note: "integrated boot: real PMM + real VMM on one simulated machine"},
+		},
+		Rule: "one evaluation = one simulated boot (generated memory map of 1-8 regions with word-boundary frame counts, unaligned edges, sub-page regions, non-available types; kernel placement at start/middle/end/covering; 0-3 extra early allocations per mapping) followed by a seeded history of AllocFrame/FreeFrame calls by 1-8 callers including drain-to-exhaustion phases; every returned frame is checked against the reference sets. Sub-check C01B is the INTEGRATED boot: the memory map describes the simulated physical memory of engine VMM, the real pmm.Init runs on the real vmm.EarlyReserveRegion/vmm.Map (software MMU), then the real vmm.Init builds the kernel address space from frames of the real bitmap allocator, copy-on-write faults are served by it, and finally the allocator is drained: every frame the VMM holds must come from the usable set exactly once and the drained set must be exactly usable minus held (conservation across both managers). Non-trivial = Init succeeded, >=3 allocations and >=1 free (C01) / the boot completed (C01B); distinct = hash of (memory map, kernel placement, operation counts).",
 		Assume: []string{"callers free only frames they hold (the allocator does not know owners)", "sequential histories here; concurrent callers are C09"},
-		Required: []string{"pmm.reached_oom", "pmm.drain_phase", "pmm.extra_early_alloc_in_map"},
+		Required: []string{"pmm.reached_oom", "pmm.drain_phase", "pmm.extra_early_alloc_in_map", "c01b.booted", "c01b.conservation_checked", "c01b.cow_served_by_bitmap_allocator", "c01b.vmm_init_oom"},
 	})
 	addProp(&propSpec{
 		ID: "C02", Engine: "pmm", Level: "exploration",
